@@ -216,6 +216,16 @@ Theorem C17_dht_only_when_unsent : forall st index is_ac m st' slot, 0 <= slot -
 Proof. exact emit_dht_count. Qed.
 Print Assumptions C17_dht_only_when_unsent.
 
+(* the facts generated from the current source that the models consume (fix presence, marker codes, sizes) *)
+Theorem C17_source_facts :
+  g_NCOMP_CHECK_IN_VALIDATE = 1 /\ g_REVALIDATE_AFTER_LOSSLESS = 1 /\ g_ZERO_QUANT_REJECTED = 1 /\
+  g_DIVISOR_CLAMPED_EVERYWHERE = 1 /\ g_MISSING_CODE_CHECK = 1 /\ g_MISSING_ZRL_EOB_CHECK = 1 /\
+  g_SIMD_RANGE_PRECHECK = 1 /\ g_RESTART_CLAMP_DIRECT = 1 /\ g_SP_SIZE_RULE = 1 /\ g_SP_ALLOC_GUARD = 1 /\
+  g_DRI_RULE = 1 /\ g_RAW_ADVANCE = 1 /\ g_DQT_INDEX_CHECK = 1 /\ g_HUFF_TBLNO_CHECK_FIRST = 1 /\
+  g_M_SOI = 216 /\ g_M_EOI = 217 /\ g_BUFSIZE = 512 /\ g_BIT_BUF_SIZE = 64.
+Proof. exact source_facts. Qed.
+Print Assumptions C17_source_facts.
+
 (* ---- non-vacuity ---- *)
 Example C17_ex_std_progression_accepted :
   snd (validate_script 3 8 std_prog_ycc) = inr Progressive /\ snd (validate_script 1 8 std_prog_gray) = inr Progressive.
